@@ -281,12 +281,15 @@ def psa (c : Cfg) (tot : Nat → Nat) (th : Nat) (va : List Vote) : Nat → Nat 
   | 0, _, sel => sel
   | f + 1, curr, sel => psaLoop c tot th curr (psa c tot th va f) va sel
 
+/-- body of the first loop of `getPossibleSelectedBlocks`: the number stored is the one found in the vote -/
+def dirStep (tot : Nat → Nat) (th : Nat) (bl : Sel) (p : Vote × Nat) : Sel :=
+  if th < tot p.1.blk then aset bl p.1.blk p.1.num else bl
+
 /-- `getPossibleSelectedBlocks` for the votes and the number of equivocators of one stage -/
 def psb (c : Cfg) (o : Ord) (votes : List (Nat × Vote)) (e : Nat) (th : Nat) : Sel :=
   let dv := directVotes votes
   let tot := total c.t dv e
-  let blocks := ((o [0]).votes dv).foldl
-    (fun bl p => if th < tot p.1.blk then aset bl p.1.blk p.1.num else bl) []
+  let blocks := ((o [0]).votes dv).foldl (dirStep tot th) []
   if !blocks.isEmpty then blocks
   else
     let va := (o [2]).keys (dv.map (·.1))
